@@ -132,6 +132,11 @@ def gen(tier, rng, boost=1):
         for s2 in ESC_STRINGS:
             q1, q2 = rng.choice("nds"), rng.choice("nds")
             yield from pair_case(("str", s1, q1), ("str", s2, q2), "str-escape", text=False)
+    # string literals that are == under different escape spellings, same and different quote kinds
+    lits = [t for c in G.ESCAPE_CLASSES for t in c]
+    for t1 in lits:
+        for t2 in lits:
+            yield from pair_case(("strl", t1), ("strl", t2), "str-escape-literal")
     # --- colours
     n = (300 if quick else 8000) * boost
     for i in range(n):
